@@ -666,6 +666,13 @@ M('c01-shared-counter-read', 'C01', 'src/containers/qtreetbl.c',
 M('c13-shared-counter-read', 'C13', 'src/containers/qtreetbl.c',
   "    _q_treetbl_rotate_left_cnt++;\n", "    if ((++_q_treetbl_rotate_left_cnt & 0xffff) == 0) x->red = false;\n",
   'GS1', 'rotate_left', 'file-scope state read and written outside every container lock')
+M('c16-urlenc-signed-byte', 'C16', 'src/utilities/qencode.c',
+  "        unsigned char c = *pBinPt;\n        if (URLCHARTBL[c] != 0) {", "        char c = *pBinPt;\n        if (URLCHARTBL[(unsigned char) c] != 0) {",
+  'TB14', 'qurl_encode', 'the escaped byte is held in a plain char: the high nibble of bytes >= 0x80 is computed from a negative value')
+M('c04-cmp-result-narrowed', 'C04', 'src/containers/qtreetbl.c',
+  "        int cmp = tbl->compare(name, namesize, obj->name, obj->namesize);\n        if (cmp == 0) {\n            break;\n        }\n        lastobj = obj;",
+  "        int8_t cmp = tbl->compare(name, namesize, obj->name, obj->namesize);\n        if (cmp == 0) {\n            break;\n        }\n        lastobj = obj;",
+  'T15', 'qtreetbl_find_nearest', 'the comparator result is held in an int8_t')
 M('c11-borrowed-name-freed', 'C11', 'src/containers/qhashtbl.c',
   "    char *dupname = strdup(name);\n    void *dupdata = malloc(size);",
   "    char *dupname = (obj != NULL) ? obj->name : strdup(name);\n    void *dupdata = malloc(size);",
